@@ -56,6 +56,31 @@ fn main() {
                 },
             }
         }
+        "fuzzdecode" => {
+            // debugging aid: decode a libFuzzer input the way the fuzz targets do, print and run the case
+            let data = std::fs::read(&args[2]).unwrap_or_default();
+            let id = args.get(3).map(|s| s.as_str()).unwrap_or("C01");
+            let spec = lsmv::props::spec(id).expect("spec");
+            let mut g = spec.gen.clone();
+            g.max_ops = 120;
+            let c = lsmv::bytecase::decode_case(&g, &data);
+            println!("decoded: {} keys, {} cfgs, {} ops", c.keys.len(), c.cfgs.len(), c.ops.len());
+            if std::env::var("LSMV_TRACE").is_ok() {
+                for (i, op) in c.ops.iter().enumerate() {
+                    println!("  {i} {op:?}");
+                }
+            }
+            match lsmv::runner::run_case(&spec, &c) {
+                Ok(s) => {
+                    println!("case passed; {} counters", s.ctr.len());
+                    0
+                }
+                Err(f) => {
+                    println!("FAILURE property={id} : {}", f.what);
+                    1
+                }
+            }
+        }
         "c10worker" => {
             if args.len() < 3 {
                 usage();
